@@ -512,37 +512,69 @@ def _cls_of(d, p):
     return "never-in-source"
 
 
-def _export_family(plain, d, cls, sym, p):
-    """Closed key space for the known exporter mechanisms; anything else keeps its detailed (class, symptom) key."""
-    fid = d.new_at.get(p, d.old_at.get(p))
-    fl = d.flags.get(fid, set())
-    below = "under-renamed-dir" in fl or cls.startswith("carried") or "moved with its renamed parent" in cls
-    dir_renamed = any(c.startswith("renamed") and c.endswith(":directory") for c in d.classes)
-    if plain and dir_renamed and (below or (cls.startswith("renamed") and "directory" in cls)):
-        return "plain:directory-rename-not-emitted"
-    if below:
-        return "change-below-renamed-directory:old-path-used-after-the-rename"
-    if fl & {"path-reused", "old-path-reused"}:
+def _entry_chain(d, p):
+    """File ids of the entry at p and of its ancestor directories, nearest first, looked up in the new and in the old tree (a path
+    that exists in neither is followed upwards only)."""
+    out = []
+    q = p
+    while q:
+        for at in (d.new_at, d.old_at):
+            fid = at.get(q)
+            if fid is not None and fid not in out:
+                out.append(fid)
+        q = q.rpartition("/")[0]
+    return out
+
+
+def _export_family(plain, d, cls, sym, p, roles):
+    """Mechanism (closed key space) by which the exporter's commands mistreat path p, decided by what the revision does to the entry at
+    p and to its ancestor directories and by which commands the commit actually contains; else the detailed (class, symptom) key."""
+    chain = _entry_chain(d, p)
+    opath = {f: q for q, f in d.old_at.items()}
+    srcs = [q for q, v in roles.items() if "R-src" in v]
+    # (fixed) plain stream: a renamed directory with content for which no rename of anything below it was emitted
+    if plain:
+        for fid in chain:
+            c = d.cls.get(fid, "")
+            o = opath.get(fid)
+            if c.startswith("renamed") and c.endswith(":directory") and o and any(q.startswith(o + "/") for q in d.old_at) \
+                    and not any(q.startswith(o + "/") for q in srcs):
+                return "plain:directory-rename-not-emitted"
+    # a path that is vacated and taken again inside the commit (swap, chain, replacement) - by the entry or by one of its directories
+    if any(d.flags.get(fid, set()) & {"path-reused", "old-path-reused"} for fid in chain):
         return "path-reused-within-one-commit:commands-in-wrong-order"
-    # the failing path itself explains nothing: does the commit contain one of the known-bad shapes at all?
-    shapes = []
-    if plain and dir_renamed:
-        shapes.append("plain:directory-rename-not-emitted")
-    if any("under-renamed-dir" in f for i, f in d.flags.items() if not d.cls[i].startswith("carried")):
-        shapes.append("change-below-renamed-directory")
-    if any(f & {"path-reused", "old-path-reused"} for f in d.flags.values()):
-        shapes.append("path-reused-within-one-commit")
-    if shapes:
-        return "other-problem-in-commit-with:%s:%s" % (shapes[0], sym)
+    # something changes below a directory that is renamed in the same commit
+    if "moved with its renamed parent" in cls or any("under-renamed-dir" in d.flags.get(fid, set()) for fid in chain[:1]) \
+            or any(d.cls.get(fid, "").startswith("renamed") and d.cls.get(fid, "").endswith(":directory") for fid in chain[1:]):
+        return "change-below-renamed-directory:" + ("children-renamed-in-wrong-order" if plain else "old-path-used-after-the-rename")
     return "%s:%s" % (cls, sym)
 
 
 def _import_family(role, sym, roles):
-    if "R-dst" in role.split("+") and sym == "missing":
+    """Mechanism by the role the commit's commands give the failing path and its ancestors."""
+    parts = set(role.split("+"))
+    if "R-dst" in parts and sym == "missing":
         return "rename-destination-lost"
-    if any("R-src" in v for v in roles.values()):
-        return "other-problem-in-commit-with-renames:%s" % sym
+    if "R-src" in parts and parts & {"M", "R-dst"}:
+        return "rename-source-path-reused-in-same-commit:%s" % sym
+    if any(x.startswith("under-R-") for x in parts):
+        return "path-below-directory-renamed-in-same-commit:%s" % sym
+    if any(x.startswith("parent-of-") for x in parts):
+        return "directory-whose-content-is-renamed-in-same-commit:%s" % sym
     return "%s:%s" % (role, sym)
+
+
+def _import_crash_family(roles, typename, where):
+    """Same for an exception: by the shape of the commands of the commit on which the importer raised."""
+    srcs = [q for q, v in roles.items() if "R-src" in v]
+    dsts = [q for q, v in roles.items() if "R-dst" in v]
+    if any(roles[q] & {"M", "R-dst"} or any(x.startswith(q + "/") and roles[x] & {"M", "R-dst"} for x in roles) for q in srcs):
+        return "raised:rename-source-path-reused-in-same-commit"
+    if any(x != q and (x.startswith(q + "/")) for q in srcs + dsts for x in roles):
+        return "raised:path-below-directory-renamed-in-same-commit"
+    if srcs:
+        return "raised:commit-with-renames:%s" % typename
+    return "raised:%s@%s" % (typename, where)
 
 
 def _cmd_roles(fcs):
@@ -636,15 +668,20 @@ def _roundtrip(ctx, rng, h, bname, plain, rewrite_tags):
             if diffs:
                 sym, p = diffs[0]
                 cls = _cls_of(d, p)
-                e_problem[mark] = ("export:stream:%s" % _export_family(plain, d, cls, sym, p),
+                e_problem[mark] = ("export:stream:%s" % _export_family(plain, d, cls, sym, p, roles_by_mark[mark]),
                                    "commit %s (%s): its file commands, applied in order to the parent's tree, give path(s) %r %s w.r.t. the "
                                    "revision's tree (what the revision did to the path: %s)" % (mark.decode(), r.decode(), [x[1] for x in diffs[:4]], sym, cls),
                                    {"revision": r.decode(), "mark": mark.decode(), "commands": cmds_by_mark[mark], "delta": d.classes[:30],
                                     "stream_diffs": diffs[:8]})
             elif fatal:
-                e_problem[mark] = ("export:stream:%s" % fatal[0],
-                                   "commit %s (%s): %s %r (revision did: %s)" % (mark.decode(), r.decode(), fatal[0],
-                                                                                 [n[1] for n in notes if n[0] == fatal[0]][:4], d.classes[:8]),
+                missing = [n[1] for n in notes if n[0] == fatal[0]]
+                if fatal[0] == "rename-of-missing-path" and missing[0] in base:
+                    # the source existed in the parent tree: an earlier command of the same commit destroyed or moved it
+                    key = _export_family(plain, d, _cls_of(d, missing[0]), "rename-source-gone", missing[0], roles_by_mark[mark])
+                else:
+                    key = fatal[0]  # (fixed) a rename of a path that never existed
+                e_problem[mark] = ("export:stream:%s" % key,
+                                   "commit %s (%s): %s %r (revision did: %s)" % (mark.decode(), r.decode(), fatal[0], missing[:4], d.classes[:8]),
                                    {"revision": r.decode(), "mark": mark.decode(), "commands": cmds_by_mark[mark], "delta": d.classes[:30]})
             if mark in e_problem:
                 ctx.hist("stream differs from git semantics at a commit (attribution aid)")
@@ -670,14 +707,7 @@ def _roundtrip(ctx, rng, h, bname, plain, rewrite_tags):
         else:
             roles = roles_by_mark.get(failing, {})
             kinds = sorted({x for v in roles.values() for x in v})
-            srcs = [p_ for p_, v in roles.items() if "R-src" in v]
-            reused = [p_ for p_ in srcs if roles[p_] & {"M", "R-dst"} or any(q.startswith(p_ + "/") and roles[q] & {"M", "R-dst"} for q in roles)]
-            if reused:
-                key = "import:raised:rename-source-path-reused-in-same-commit"
-            elif srcs:
-                key = "import:raised:commit-with-renames:%s" % e.typename
-            else:
-                key = "import:raised:%s@%s" % (e.typename, e.where)
+            key = "import:" + _import_crash_family(roles, e.typename, e.where)
             ctx.fail(key, "%scommit %s (commands: %s): %s@%s %s" % (what, failing, kinds, e.typename, e.where, e.text[:1200]),
                      dict(detail, failing_mark=failing and failing.decode(), commands=cmds_by_mark.get(failing),
                           stream_tail=d_[-1200:].decode("latin-1")))
